@@ -30,6 +30,7 @@ import (
 
 	_ "github.com/olive-io/bpmn/v2/pkg/expression/expr"
 	_ "github.com/olive-io/bpmn/v2/pkg/expression/xpath"
+	"github.com/olive-io/bpmn/v2/pkg/verifhook"
 )
 
 // Flow specifies an interface for BPMN flows
@@ -279,6 +280,7 @@ func (f *flow) Start(ctx context.Context) {
 		f.tracer.Send(VisitTrace{Node: f.current.Element()})
 		for {
 		await:
+			verifhook.Point("flow.loop")
 			select {
 			case <-ctx.Done():
 				f.tracer.Send(CancellationFlowTrace{FlowId: f.id, Node: f.current.Element()})
@@ -294,6 +296,7 @@ func (f *flow) Start(ctx context.Context) {
 					goto await
 				}
 			case action := <-f.current.NextAction(ctx, f):
+				verifhook.Point("flow.action")
 				if f.actionTransformer != nil {
 					action = f.actionTransformer(f.sequenceFlowId, action)
 				}
@@ -407,6 +410,7 @@ func (f *flow) Start(ctx context.Context) {
 								Flows:  effectiveFlows,
 							})
 							for _, handle := range flowHandlers {
+								verifhook.Point("flow.fork")
 								handle(ctx)
 							}
 						} else {
